@@ -225,7 +225,8 @@ OPS = [
     ("decode {'q': 'x'} without a target class (lookup by field names; LateV2 once imported)", lambda e: e.dec.decode({"q": "x"}, None)),
 ]
 # operations that build metadata of the namespace-less class Child under different inherited namespaces
-_CHILD_NS_GROUP = {0: "urn:a", 2: "urn:a", 1: "urn:b", 3: "urn:b", 4: None}
+# (35, the class-less decode, makes find_type_by_fields build EVERY loaded class stand-alone, Child included)
+_CHILD_NS_GROUP = {0: "urn:a", 2: "urn:a", 1: "urn:b", 3: "urn:b", 4: None, 35: None}
 
 
 def _with_unknown():
